@@ -64,7 +64,10 @@ def gen_plan(seed, tier):
   r = Rng(seed)
   cfg = {"segment": r.chance(0.5), "delay": r.chance(0.2),
          "recv_mode": r.pick(["all", "choose", "dribble"]),
-         "ports0": sorted(r.sample([1, 2, 3, 4], r.randint(0, 4)))}
+         "ports0": sorted(r.sample([1, 2, 3, 4], r.randint(0, 4))),
+         # some component listens to the raw per-part event on the nexus and
+         # halts it (for all parts / for a seeded half of them)
+         "halt_raw": r.pick(["", "", "", "all", "some"])}
   steps = []
   n = r.randint(4, 30 if tier == "thorough" else 18)
   tag = [1000]
@@ -195,6 +198,14 @@ def _drive(sim, plan, known, hit):
   if not handshake_script(peer, 0x99, ports0):
     raise S.SimAbort("harness", "handshake did not complete")
   con = peer.con
+  if cfg.get("halt_raw"):
+    from pox.lib.revent import EventHalt
+
+    def halter(event):
+      if cfg["halt_raw"] == "all" or sim.ch.chance("halt_raw_part", 0.5):
+        sim.probes["raw_stats_event_halted"] += 1
+        return EventHalt
+    world.nexus.addListenerByName("RawStatsReply", halter, priority=50)
   model = {p["port_no"]: dict(p) for p in ports0}
   orig = {p["port_no"]: dict(p) for p in ports0}
   ever_deleted = set()
